@@ -1,5 +1,7 @@
 """C13 / C15 on the real code, as metamorphic relations between two exact (SymPy rational) runs of block_diagonalize:
 scale, permute / merge / pad parameters, shift of H_0, complex conjugation, relabelling of blocks."""
+import os, sys; sys.path.insert(0, os.path.dirname(os.path.abspath(__file__)))
+from common import case_rnd, skip
 import sys, os, json, random, itertools, copy, warnings
 from fractions import Fraction
 warnings.simplefilter("ignore")
@@ -26,6 +28,8 @@ TRANSFORMS = ["scale", "permute-parameters", "merge-parameters", "pad-parameter"
 def main(seed, ncases, driver, out):
     rnd = random.Random(seed); failures = []; dist = {}; samples = []; evals = 0; distinct = 0
     for c in range(ncases):
+        if skip(c): continue
+        rnd = case_rnd(seed, c)
         tr = TRANSFORMS[c % len(TRANSFORMS)]
         while True:
             P = B.gen_problem(rnd, True)
